@@ -252,7 +252,11 @@ impl Writer {
 }
 
 // ------------------------------------------------------------------ independent strict JSON reader
-struct Reader<'a> { b: &'a [u8], i: usize, depth: usize, lenient: bool }
+/// `exact`: number tokens kept as f64 are read with the standard library's correctly rounded parser
+/// (used for RESPONSES: serde_json's default reader is up to 1 ulp off and does not read back its own
+/// shortest-round-trip output exactly); otherwise with serde_json on the token alone (REQUESTS: the
+/// value the dispatcher sees is by definition what serde_json reads).
+struct Reader<'a> { b: &'a [u8], i: usize, depth: usize, lenient: bool, exact: bool }
 
 impl<'a> Reader<'a> {
     fn ws(&mut self) { while self.i < self.b.len() && matches!(self.b[self.i], b' ' | b'\t' | b'\n' | b'\r') { self.i += 1; } }
@@ -336,6 +340,9 @@ impl<'a> Reader<'a> {
                 if t != "-0" && v >= -(1i128 << 63) && v < (1i128 << 64) { return Ok(J::Int(v)); }
             }
         }
+        if self.exact {
+            return match t.parse::<f64>() { Ok(f) if f.is_finite() => Ok(J::Float(f.to_bits())), _ => Err(()) };
+        }
         // a number serde_json keeps as f64: its value is taken from serde_json on the token alone
         match serde_json::from_str::<Value>(t) {
             Ok(Value::Number(n)) => Ok(J::Float(n.as_f64().ok_or(())?.to_bits())),
@@ -402,7 +409,7 @@ impl<'a> Reader<'a> {
 fn grammar_only_valid(line: &str) -> bool {
     let t = line.trim();
     if t.is_empty() { return false; }
-    let mut rd = Reader { b: t.as_bytes(), i: 0, depth: 0, lenient: true };
+    let mut rd = Reader { b: t.as_bytes(), i: 0, depth: 0, lenient: true, exact: false };
     match rd.value() { Ok(_) => { rd.ws(); rd.i == rd.b.len() } Err(()) => false }
 }
 
@@ -413,7 +420,7 @@ pub enum Outcome { Blank, Unparsable, Parsed(J) }
 fn classify(line: &str) -> Outcome {
     let t = line.trim();
     if t.is_empty() { return Outcome::Blank; }
-    let mut rd = Reader { b: t.as_bytes(), i: 0, depth: 0, lenient: false };
+    let mut rd = Reader { b: t.as_bytes(), i: 0, depth: 0, lenient: false, exact: false };
     match rd.value() {
         Ok(j) => { rd.ws(); if rd.i == rd.b.len() { Outcome::Parsed(j) } else { Outcome::Unparsable } }
         Err(()) => Outcome::Unparsable,
@@ -667,10 +674,37 @@ fn coq_snap(s: &ConfigSnapshot) -> String {
 struct Obs1 { panic: bool, resp: Option<J>, snap: ConfigSnapshot }
 fn coq_obs1(o: &Obs1) -> String { format!("(O1 {} {} {})", boolc(o.panic), coq_oj(&o.resp), coq_snap(&o.snap)) }
 
+/// objects in byte order of their keys, last duplicate wins (what a serde_json `Value` map gives)
+fn key_order(j: &mut J) {
+    match j {
+        J::Arr(l) => l.iter_mut().for_each(key_order),
+        J::Obj(m) => {
+            let mut out: Vec<(String, J)> = vec![];
+            for (k, mut v) in m.drain(..) {
+                key_order(&mut v);
+                if let Some(e) = out.iter_mut().find(|(k2, _)| *k2 == k) { e.1 = v; } else { out.push((k, v)); }
+            }
+            out.sort_by(|a, b| a.0.as_bytes().cmp(b.0.as_bytes()));
+            *m = out;
+        }
+        _ => {}
+    }
+}
+
+/// a response line -> tree.  Read with the harness's own strict reader and the standard library's
+/// correctly rounded float parser: the text was written by serde_json's shortest-round-trip printer,
+/// and serde_json's own default reader does not always read that back exactly (1 ulp), which made
+/// an echoed fractional/huge numeric id look different from the id of the request (false alarm
+/// found with VERIF_SEED=3).  serde_json must still accept the line.
 fn resp_tree(line: Option<String>) -> Option<J> {
-    line.map(|t| match serde_json::from_str::<Value>(&t) {
-        Ok(v) => { let mut j = from_value(&v); digest_error_strings(&mut j); j }
-        Err(_) => J::Str("<response is not JSON>".into()),
+    line.map(|t| {
+        if serde_json::from_str::<Value>(&t).is_err() { return J::Str("<response is not JSON>".into()); }
+        let mut rd = Reader { b: t.trim().as_bytes(), i: 0, depth: 0, lenient: false, exact: true };
+        match rd.value() {
+            Ok(mut j) => { rd.ws(); if rd.i != rd.b.len() { return J::Str("<response is not JSON>".into()); }
+                           key_order(&mut j); digest_error_strings(&mut j); j }
+            Err(()) => J::Str("<response is not JSON>".into()),
+        }
     })
 }
 
@@ -717,6 +751,7 @@ impl Driver {
             let cw_lit = if l.cw { format!("(Some ({},{}))", cw.windows_received(), cw.malformed_datagrams()) } else { "None".to_string() };
 
             let rs = catch(AssertUnwindSafe(|| dispatch(&cfg_s, st_opt, cw_opt, &l.text).map(|r| r.to_json())));
+            if std::env::var("VERIF_C18_LINES").is_ok() { eprintln!("LINE {:?} -> {:?}", l.text, rs); }
             let ra = catch(AssertUnwindSafe(|| {
                 self.rt.block_on(async {
                     if ctx_on {
